@@ -363,7 +363,11 @@ class GridSearcher(StochasticSearcher):
             num_samples=self.num_samples,
             metric=self._metric,
             shuffle_config=self._shuffle_config,
+            allow_duplicates=self._allow_duplicates,
         )
+        # The grid has been shuffled at construction, depending on the random
+        # seed. The clone has to continue with the same ordering
+        new_searcher.hp_values_combinations = self.hp_values_combinations.copy()
         new_searcher._restore_from_state(state)
         return new_searcher
 
